@@ -19,7 +19,7 @@ def ev_new(c, keys, tweak=b''):
     except Exception as ex: e['raised'] = type(ex).__name__
     return e
 
-def _out(r): return B(r) if isinstance(r, (bytes, bytearray)) else [-1]
+def _out(r): return B(r) if isinstance(r, bytes) else [-1]
 
 def ev_crypt(obj, cirec, op, blk):
     e = dict(op=op, ci=cirec, blk=B(blk), raised='', obs=[])
